@@ -170,60 +170,228 @@ def guards_at(node, fnode):
     return out
 
 
+class FootnoteMap(AbstractValue):
+    """The definitions table of a document, abstractly: membership of a key is undetermined (forks);
+    every operation is logged together with what was known about the key's membership at that moment."""
+
+    def __init__(self):
+        self.log = []
+        self.known = {}     # id(key) -> bool decided by a membership test on this path
+
+    def abs_contains(self, interp, item):
+        r = interp.decide(('footnote-key-present', id(item)), fresh=True)
+        self.known[id(item)] = r
+        return r
+
+    def abs_getattr(self, interp, name):
+        from ..domains import _AbsBound
+        return _AbsBound(self, name)
+
+    def abs_setitem(self, interp, key, value):
+        self.log.append(('set', key, value, self.known.get(id(key))))
+
+    def abs_method(self, interp, name, args, kwargs):
+        if name == 'setdefault' and len(args) == 2:
+            self.log.append(('setdefault', args[0], args[1], None))
+            return args[1]
+        if name == 'get':
+            self.log.append(('get', args[0], None, None))
+            return Unknown('footnotes.get')
+        self.log.append((name, args[0] if args else None, args[1] if len(args) > 1 else None, None))
+        return Unknown('footnotes.%s' % name)
+
+
+def writer_roles(fi):
+    """(index of the parameter whose .footnotes is written, index of the parameter that is iterated)."""
+    params = fi.params()
+    root_i = it_i = None
+    for n in walk_function(fi.node):
+        if isinstance(n, ast.Attribute) and n.attr == 'footnotes' and isinstance(n.value, ast.Name) and n.value.id in params:
+            root_i = params.index(n.value.id)
+        if isinstance(n, ast.For) and isinstance(n.iter, ast.Name) and n.iter.id in params:
+            it_i = params.index(n.iter.id)
+    return root_i, it_i
+
+
+def derives_from(v, src):
+    """Is the abstract value derived from the abstract string `src` (provenance chain)?"""
+    if v is src:
+        return True
+    if isinstance(v, tuple):
+        return any(derives_from(x, src) for x in v)
+    p = getattr(v, 'prov', None)
+    return p is not None and (src.prov == p or _prov_contains(p, src.prov))
+
+
+def _prov_contains(p, target):
+    if p == target:
+        return True
+    return isinstance(p, tuple) and any(_prov_contains(x, target) for x in p)
+
+
+def _prov_intrinsics(it):
+    """String helpers keep the provenance of their abstract argument."""
+    it.intrinsics['str.join'] = lambda interp, args, kwargs: AbsStr(prov=('join', args[0], _freeze(args[1])))
+    it.intrinsics['re.sub'] = lambda interp, args, kwargs: AbsStr(prov=('re.sub', args[0], args[1], _freeze(args[2])))
+    it.intrinsics['html.unescape'] = lambda interp, args, kwargs: AbsStr(prov=('html.unescape', _freeze(args[0])))
+    it.intrinsics['html.escape'] = lambda interp, args, kwargs: AbsStr(prov=('html.escape', _freeze(args[0])))
+
+
+def simulate_writer(model, fi):
+    """Run a definitions writer over two abstract definitions; yields, per path, the FootnoteMap log,
+    the labels/destinations, and the functions that were applied to a label."""
+    root_i, it_i = writer_roles(fi)
+    if root_i is None or it_i is None:
+        raise AnalysisError('%s writes .footnotes but its parameters do not have the (matches, root) roles' % fi.short)
+    out = []
+
+    def runner(oracle):
+        it = Interp(model, loop_bound=3)
+        it.reset_run(oracle)
+        install_rx_hooks(it, [])
+        _prov_intrinsics(it)
+        fm = FootnoteMap()
+        labels = [AbsStr(label='label%d' % i) for i in (1, 2)]
+        dests = [AbsStr(label='dest%d' % i) for i in (1, 2)]
+        titles = [AbsStr(label='title%d' % i) for i in (1, 2)]
+        matches = [(labels[i], dests[i], titles[i], Unknown('dest_type'), Unknown('title_delimiter')) for i in (0, 1)]
+        root = Obj(model.cls('block_token.Document'), {'footnotes': fm})
+        applied = []
+        orig = it.call_function
+
+        def spy(f, args, kwargs, node=None):
+            if any(a is labels[0] or a is labels[1] for a in args):
+                applied.append(f)
+            return orig(f, args, kwargs, node)
+        it.call_function = spy
+        args = [None] * len(fi.params())
+        args[root_i], args[it_i] = root, matches
+        if fi.kind == 'classmethod':
+            args[0] = fi.cls
+        try:
+            it.call_function(fi, [a for a in args], {})
+        except Raised as r:
+            return ('raise', r.exc.kind, fm, labels, dests, applied)
+        return ('ok', None, fm, labels, dests, applied)
+    for trace, res in enumerate_paths(runner, 64):
+        out.append(res)
+    return out
+
+
 def rule_first_wins(ctx, rep):
+    """Decided by interpreting every function that writes <root>.footnotes over two abstract definitions
+    with an abstract table (membership of a key forks): a definition is stored only by setdefault or on a
+    path where the key was tested absent; keys derive from the labels in source order; and Footnote.read
+    hands the matches it collected, in the order match_reference produced them, to the writer."""
     model = ctx.model
-    rep.rule('R-FIRST-WINS', 'every store into .footnotes[k] is guarded by `k not in .footnotes`; source-order collection')
+    rep.rule('R-FIRST-WINS', 'definitions are stored only when the key is absent (or by setdefault), in source order; '
+             'read() hands over its matches in scan order')
+    writers = []
     for fi, node in footnote_writers(model):
+        if fi not in writers:
+            writers.append(fi)
+    if not writers:
+        raise AnalysisError('anchor vanished: nothing outside the renderers writes .footnotes')
+    normalisers = set()
+    key_samples = []
+    for fi in writers:
         rep.instance('R-FIRST-WINS')
-        if not isinstance(node, ast.Subscript):
-            rep.obligation('R-FIRST-WINS', False, {'writer': fi.short, 'site': ast.unparse(node)})
-            rep.find('R-FIRST-WINS', fi.short, ast.unparse(node.func), 'definitions are written with %s, which can replace an '
-                     'earlier definition' % ast.unparse(node.func), loc(model.unit_of(fi), node))
-            continue
-        key = ast.unparse(node.slice)
-        target = ast.unparse(node.value)
-        ok = False
-        for test, pol in guards_at(node, fi.node):
-            if isinstance(test, ast.Compare) and len(test.ops) == 1 and ast.unparse(test.left) == key \
-                    and ast.unparse(test.comparators[0]) == target:
-                if (isinstance(test.ops[0], ast.NotIn) and pol) or (isinstance(test.ops[0], ast.In) and not pol):
-                    ok = True
-            if isinstance(test, ast.UnaryOp) and isinstance(test.op, ast.Not) and isinstance(test.operand, ast.Compare) \
-                    and len(test.operand.ops) == 1 and isinstance(test.operand.ops[0], ast.In) and pol \
-                    and ast.unparse(test.operand.left) == key and ast.unparse(test.operand.comparators[0]) == target:
-                ok = True
-        # the key must not be rebound between guard and store: same statement list, simple check
-        rep.obligation('R-FIRST-WINS', ok, {'writer': fi.short, 'store': ast.unparse(node), 'guard': '%s not in %s' % (key, target)})
-        if not ok:
-            rep.find('R-FIRST-WINS', fi.short, 'unguarded-store',
-                     'the store %s is not guarded by "%s not in %s": a later definition replaces the first one'
-                     % (ast.unparse(node), key, target), loc(model.unit_of(fi), node))
-        # stored in iteration order of the matches parameter
-        loops = [n for n in walk_function(fi.node) if isinstance(n, ast.For) and node in list(ast.walk(n))]
-        ok2 = bool(loops) and isinstance(loops[-1].iter, ast.Name) and loops[-1].iter.id in fi.params()
-        rep.obligation('R-FIRST-WINS', ok2, {'writer': fi.short, 'iteration': ast.unparse(loops[-1].iter) if loops else None})
-        if not ok2:
-            rep.find('R-FIRST-WINS', fi.short, 'store-order', 'definitions are not stored by a forward loop over the matches '
-                     'in source order', loc(model.unit_of(fi), node))
-    # collection in source order in Footnote.read
-    rd = model.method('block_token.Footnote', 'read')
+        problems = {}
+        n_stores = 0
+        for kind, exc, fm, labels, dests, applied in simulate_writer(model, fi):
+            if kind == 'raise':
+                continue
+            stores = [e for e in fm.log if e[0] in ('set', 'setdefault')]
+            for op, key, value, known in fm.log:
+                if op == 'set':
+                    n_stores += 1
+                    if known is not False:
+                        problems['unguarded-store'] = ('stores a definition without having found its key absent from the table: a '
+                                                       'later definition replaces the first one')
+                elif op == 'setdefault':
+                    n_stores += 1
+                elif op not in ('get',):
+                    problems['writes-with-%s' % op] = 'definitions are written with %s, which can replace an earlier definition' % op
+            # source order: the store for definition 1 (if any) precedes the store for definition 2
+            order = []
+            for op, key, value, known in stores:
+                for i in (0, 1):
+                    if derives_from(key, labels[i]):
+                        order.append(i)
+                        if not derives_from(value, dests[i]):
+                            problems['value-of-other-definition'] = 'a label is stored with the destination of another definition'
+                        key_samples.append(key)
+            if order != sorted(order):
+                problems['store-order'] = 'definitions are not stored in source order'
+            if len(order) != len(stores):
+                problems['key-not-from-label'] = 'a stored key does not derive from the definition\'s label'
+            for f in applied:
+                normalisers.add(f)
+        if n_stores == 0:
+            problems['no-store'] = 'no path stores a definition'
+        rep.obligation('R-FIRST-WINS', not problems, {'writer': fi.short, 'stores seen': n_stores, 'problems': sorted(problems)})
+        for k, msg in sorted(problems.items()):
+            rep.find('R-FIRST-WINS', fi.short, k, '%s %s' % (fi.short, msg), loc(model.unit_of(fi), fi.node))
+    ctx._cache['c07_normalisers'] = normalisers
+    ctx._cache['c07_key_samples'] = key_samples
+    # collection in source order in Footnote.read: match_reference is replaced by a stub that yields M1, M2, then None
+    fn = model.cls('block_token.Footnote')
+    rd = fn.lookup('read')[1]
+    mr = fn.lookup('match_reference')[1]
+    fw = model.cls('block_tokenizer.FileWrapper')
     rep.instance('R-FIRST-WINS')
-    ok = False
-    for w in walk_function(rd.node):
-        if isinstance(w, ast.While):
-            for c in ast.walk(w):
-                if isinstance(c, ast.Call) and isinstance(c.func, ast.Attribute) and c.func.attr == 'append' \
-                        and isinstance(c.func.value, ast.Name):
-                    lst = c.func.value.id
-                    # the same list is what append_footnotes receives
-                    for d in walk_function(rd.node):
-                        if isinstance(d, ast.Call) and isinstance(d.func, ast.Attribute) and d.func.attr == 'append_footnotes' \
-                                and d.args and isinstance(d.args[0], ast.Name) and d.args[0].id == lst:
-                            ok = True
-    rep.obligation('R-FIRST-WINS', ok, {'Footnote.read': 'matches.append inside the forward scan; same list handed to append_footnotes'})
-    if not ok:
-        rep.find('R-FIRST-WINS', rd.short, 'collection-order', 'Footnote.read does not collect definitions by append in a '
-                 'forward scan and hand that list to append_footnotes', loc(model.unit_of(rd), rd.node))
+    handed = []
+
+    def runner(oracle):
+        from .. import tokens as tk
+        it = Interp(model, loop_bound=2, while_bound=4)
+        it.reset_run(oracle)
+        install_rx_hooks(it, [])
+        tk._len_hook(it)
+        it.intrinsics['str.join'] = lambda interp, args, kwargs: AbsStr(prov=('join', args[0], _freeze(args[1])))
+        produced = []
+
+        def h_mr(interp, f, args, kwargs):
+            if len(produced) >= 2:
+                return None
+            m = ('label%d' % len(produced), 'dest', 'title', 'uri', None)
+            produced.append(m)
+            return (AbsInt('offset%d' % len(produced)), m)
+        it.func_hooks[mr.qualname] = h_mr
+        got = []
+        for w_ in writers:
+            it.func_hooks[w_.qualname] = lambda interp, f, args, kwargs: got.append(list(a for a in args if isinstance(a, list))) or None
+        lines = [AbsStr(label='line%d' % i) for i in range(2)]
+        w = it.construct(fw, [lines], {})
+        it.gstate[(PKG + '.token', '_root_node')] = Obj(model.cls('block_token.Document'), {'footnotes': FootnoteMap()})
+        try:
+            it.call(it.getattr(fn, 'read'), [w], {})
+        except Raised:
+            return None
+        except Exception as e:
+            if type(e).__name__ == 'LoopTruncated':
+                return None
+            raise
+        return produced, got
+    n_paths = 0
+    problems = set()
+    for trace, res in enumerate_paths(runner, 400):
+        if res is None:
+            continue
+        produced, got = res
+        n_paths += 1
+        lists = [l for call in got for l in call]
+        if produced and not lists:
+            problems.add('matches are produced but never handed to the writer')
+        for l in lists:
+            if l != produced[:len(l)] or len(l) != len(produced):
+                problems.add('the list handed to the writer is %s where the scan produced %s' % ([m[0] for m in l], [m[0] for m in produced]))
+    ok = n_paths > 0 and not problems
+    rep.obligation('R-FIRST-WINS', ok, {'Footnote.read': 'hands the matches of the forward scan, in scan order, to the writer', 'paths': n_paths})
+    for p_ in sorted(problems)[:2]:
+        rep.find('R-FIRST-WINS', rd.short, 'collection-order', 'Footnote.read: %s' % p_, loc(model.unit_of(rd), rd.node))
+    if n_paths == 0:
+        raise AnalysisError('Footnote.read could not be simulated with a stubbed match_reference')
 
 
 def normaliser_of(fi, expr, depth=0):
@@ -243,9 +411,6 @@ def rule_label_agree(ctx, rep):
     model = ctx.model
     rep.rule('R-LABEL-AGREE', 'same normaliser at the store and at every lookup; it case-folds and collapses whitespace')
     norms = {}
-    for fi, node in footnote_writers(model):
-        if isinstance(node, ast.Subscript):
-            norms[(fi.short, 'store')] = (normaliser_of(fi, node.slice), fi, node)
     base = model.cls('base_renderer.BaseRenderer')
     for fi in model.functions.values():
         if fi.cls is not None and fi.cls.is_subclass_of(base):
@@ -260,26 +425,36 @@ def rule_label_agree(ctx, rep):
             if isinstance(n, ast.Compare) and len(n.ops) == 1 and isinstance(n.ops[0], (ast.In, ast.NotIn)) \
                     and isinstance(n.comparators[0], ast.Attribute) and n.comparators[0].attr == 'footnotes':
                 norms[(fi.short, 'in@%d' % len(norms))] = (normaliser_of(fi, n.left), fi, n)
-    store = [v[0] for k, v in norms.items() if k[1] == 'store']
-    if not store or store[0] is None:
-        raise AnalysisError('the key stored into .footnotes is not produced by a function call (normaliser not found)')
-    N = store[0]
+    # the store side: the function(s) the writers were seen to apply to a label (R-FIRST-WINS simulation)
+    applied = ctx._cache.get('c07_normalisers')
+    if applied is None:
+        raise AnalysisError('R-LABEL-AGREE needs the writer simulation of R-FIRST-WINS')
+    applied = {f for f in applied if isinstance(f, FuncInfo)}
+    if len(applied) != 1:
+        raise AnalysisError('the writers apply %s to a label before storing it (expected exactly one normaliser)'
+                            % sorted(f.short for f in applied))
+    nf = next(iter(applied))
+    N = nf.name
+    writer_names = {fi.short for fi, _ in footnote_writers(model)}
     n_lookups = 0
+    undecided = []
     for (where, kind), (name, fi, node) in norms.items():
+        if where in writer_names and kind.startswith('in@'):
+            continue            # the writer's own absence test, on the key it is about to store
         rep.instance('R-LABEL-AGREE')
-        n_lookups += kind != 'store'
+        n_lookups += 1
+        if name is None:
+            undecided.append(where)     # key not traceable to one call: not decided, listed
+            continue
         ok = name == N
         rep.obligation('R-LABEL-AGREE', ok, {'site': where, 'kind': kind.split('@')[0], 'normaliser': name})
         if not ok:
             rep.find('R-LABEL-AGREE', where, 'key-normaliser:%s' % kind.split('@')[0],
                      'the key used at this %s is produced by %r, the store uses %r: labels that differ in case or inner '
                      'whitespace no longer meet' % (kind.split('@')[0], name, N), loc(model.unit_of(fi), node))
-    rep.floor('R-LABEL-AGREE', n_lookups, 2)
+    rep.extra['label_lookups_undecided'] = undecided
+    rep.floor('R-LABEL-AGREE', n_lookups, 1)
     # the normaliser itself
-    cands = [f for f in model.functions.values() if f.name == N and f.parent is None]
-    if len(cands) != 1:
-        raise AnalysisError('normaliser %s not found or ambiguous' % N)
-    nf = cands[0]
     rep.instance('R-LABEL-AGREE')
 
     def runner(oracle):
